@@ -38,7 +38,9 @@ REQUIRED_PROBES = {
     "thorough": ["connect:refused", "send:epipe", "recv:reset", "recv:intr", "retry_happened", "redirect_followed", "probe_block", "probe_nonblock", "tunnel_used"],
 }
 
-DISPOSALS = ["read_all", "read_k_release", "release_unread", "drain", "close_release", "close_only", "stream_all", "stream_part_release", "with_block", "drop", "data"]
+# "*_only": the body is consumed to its end and nothing else is done -- reading to the end is what gives the connection back
+DISPOSALS = ["read_all", "read_k_release", "release_unread", "drain", "close_release", "close_only", "stream_all", "stream_part_release", "with_block", "drop", "data",
+             "read_all_only", "stream_all_only", "iter_only"]
 CLOSE_ONLY = ("close_only", "with_block", "drop")
 
 SEND_FAULTS = ["epipe", "reset", "eprototype", "eio", "intr", "timeout"]
@@ -81,6 +83,8 @@ def _gen_exchange(rng, faulty: bool):
     if not faulty or c < 0.45:
         st = rng.choice([200, 200, 200, 204, 404, 500, 503])
         ex = {"k": "resp", "status": st, "framing": rng.choice(["cl", "cl", "chunked", "close"]), "body": {"tag": rng.choice([1, 3, 40])}}
+        if rng.random() < 0.12:
+            ex["body"] = ""  # Content-Length: 0 / an empty chunked or close-delimited body
         if rng.random() < 0.25:
             ex["keepalive"] = False
         if rng.random() < 0.15 and ex["framing"] != "close":
@@ -147,6 +151,12 @@ def gen_base(rng, tier: str, faulty: bool) -> dict:
         sc["connects"] = []
     if rng.random() < 0.25:
         sc["close_without_probe"] = True
+    if preload and cfg["release_conn"] is False:
+        # release_conn=False is the caller's promise to release the connection itself: a preloaded body is read before the response
+        # knows its pool, so merely iterating over it afterwards gives nothing back
+        for o in ops:
+            if o["op"] == "dispose" and o["how"] in ("stream_all_only", "iter_only"):
+                o["how"] = "stream_all"
     return sc
 
 
@@ -224,6 +234,14 @@ def _dispose(r, how: str) -> None:
         it = r.stream(5)
         next(it, None)
         r.release_conn()
+    elif how == "read_all_only":
+        r.read()
+    elif how == "stream_all_only":
+        for _ in r.stream(7):
+            pass
+    elif how == "iter_only":
+        for _ in r:
+            pass
     elif how == "with_block":
         with r:
             pass
